@@ -171,7 +171,46 @@ type vchan struct {
 	cap         int
 	closed      bool
 	elem        types.Type
-	recvWaiting int // receivers announced by the harness (vExpectRecv): lets a send on an unbuffered channel proceed
+	recvWaiting int       // receivers announced by the harness (vExpectRecv): lets a send on an unbuffered channel proceed
+	waiters     []*waiter // cooperative mode: goroutines parked receiving on this unbuffered channel
+}
+
+// waiter: a goroutine parked in a receive or a select on unbuffered channels (cooperative mode). A sender completes
+// against the first waiter that is not yet satisfied, which commits that receiver to this value: it is withdrawn
+// from every channel it waits on, exactly as the runtime completes one case of a blocked select.
+type waiter struct {
+	chans     []*vchan
+	satisfied bool
+	from      *vchan
+	val       value
+}
+
+func (w *waiter) park(ch *vchan) {
+	w.chans = append(w.chans, ch)
+	ch.waiters = append(ch.waiters, w)
+}
+
+func (w *waiter) withdraw() {
+	for _, ch := range w.chans {
+		for i, x := range ch.waiters {
+			if x == w {
+				ch.waiters = append(ch.waiters[:i:i], ch.waiters[i+1:]...)
+				break
+			}
+		}
+	}
+	w.chans = nil
+}
+
+// handOff gives v to a parked receiver of ch, if there is one.
+func (ch *vchan) handOff(v value) bool {
+	if len(ch.waiters) == 0 {
+		return false
+	}
+	w := ch.waiters[0]
+	w.withdraw()
+	w.satisfied, w.from, w.val = true, ch, v
+	return true
 }
 
 func chanSend(ex *Exec, ch *vchan, v value) {
@@ -258,24 +297,47 @@ func doSelect(fr *frame, instr *ssa.Select) value {
 	if ex.coop() {
 		ready = selectReady(fr, instr)
 	}
+	var handed *waiter
 	if ex.coop() && instr.Blocking {
 		for len(ready) == 0 {
 			// park on every receive case of an unbuffered channel, let the others run, look again
-			var parked []*vchan
+			w := &waiter{}
 			for _, st := range instr.States {
 				if ch := fr.get(st.Chan).(*vchan); ch != nil && st.Dir == types.RecvOnly && ch.cap == 0 {
-					ch.recvWaiting++
-					parked = append(parked, ch)
+					w.park(ch)
 				}
 			}
 			ex.yield("select in " + fr.fn.Name())
-			for _, ch := range parked {
-				if len(ch.buf) == 0 && ch.recvWaiting > 0 {
-					ch.recvWaiting--
-				}
+			if w.satisfied {
+				handed = w
+				break
 			}
+			w.withdraw()
 			ready = selectReady(fr, instr)
 		}
+	}
+	if handed != nil {
+		// a sender completed against this select: that case is the one taken
+		chosen := -1
+		for i, st := range instr.States {
+			if st.Dir == types.RecvOnly && fr.get(st.Chan).(*vchan) == handed.from {
+				chosen = i
+				break
+			}
+		}
+		r := tuple{chosen, true}
+		for i, st := range instr.States {
+			if st.Dir == types.RecvOnly {
+				var v value
+				if i == chosen {
+					v = handed.val
+				} else {
+					v = zero(st.Chan.Type().Underlying().(*types.Chan).Elem())
+				}
+				r = append(r, v)
+			}
+		}
+		return r
 	}
 	if len(ready) == 0 && instr.Blocking && ex.idleHook != nil && !ex.inHook {
 		// nothing can proceed: let the harness's idle hook play the other goroutines / the environment, then look again
@@ -344,7 +406,7 @@ func selectReady(fr *frame, instr *ssa.Select) []int {
 			if len(ch.buf) > 0 || ch.closed {
 				ready = append(ready, i)
 			}
-		} else if ch.closed || len(ch.buf) < ch.cap || (len(ch.buf) == 0 && ch.recvWaiting > 0) {
+		} else if ch.closed || len(ch.buf) < ch.cap || len(ch.waiters) > 0 || (len(ch.buf) == 0 && ch.recvWaiting > 0) {
 			ready = append(ready, i)
 		}
 	}
